@@ -164,7 +164,8 @@ func getNodeWhitespace(nodes []TemplateFileNode, i int) string {
 
 func endsWithComment(s string) bool {
 	lineSlice := strings.Split(s, "\n")
-	return strings.HasPrefix(lineSlice[len(lineSlice)-1], "//")
+	// The comment may be indented in the source, gofmt moves it to the start of the line.
+	return strings.HasPrefix(strings.TrimLeft(lineSlice[len(lineSlice)-1], " \t"), "//")
 }
 
 // TemplateFileNode can be a Template, CSS, Script or Go.
